@@ -347,12 +347,6 @@ void c13_case(Tape& t, Ctx& ctx) {
     VCHECK(ctx, fabsl(etmD(i) - esum_times(i)) <= TAU_ADJ * D * esum_t_abs + tau_zero(S) * enatT + 1e-280L, "times-gradient-sum",
            who << ": energy duration gradient " << i << " is " << lg(etmD(i)) << " but the sum over the one-dimensional splines is " << lg(esum_times(i)));
   }
-  // ---- the D-dimensional object's answers do not depend on the other spline objects that were built and queried in between
-  {
-    Grads gD2 = sp.propagateGrad(gC, gT);
-    Grads eD2 = sp.getEnergyGrad();
-    VCHECK(ctx, gsame<S>(gD, gD2) && gsame<S>(eD, eD2), "other-objects-interfere", who << ": propagateGrad / getEnergyGrad of the D-dimensional spline give a different answer after " << D << " one-dimensional splines of the same class were built and queried");
-  }
   // ---- coordinate permutation
   {
     int perm[D]; for (int d = 0; d < D; ++d) perm[d] = d;
@@ -397,6 +391,12 @@ void c13_case(Tape& t, Ctx& ctx) {
       VCHECK(ctx, fabsl(tpv(i) - tmD(i)) <= TAU_ADJ * D * std::max(st, sum_t_abs) + tau_zero(S) * natT + 1e-280L, "permutation", who << ": propagated duration gradient changes under a coordinate permutation (" << lg(tpv(i)) << " vs " << lg(tmD(i)) << ")");
     VCHECK(ctx, fabsl((ld)spp.getEnergy() - (ld)ED) <= 1e-9L * fabsl((ld)ED) + 1e-280L, "permutation", who << ": energy changes under a coordinate permutation");
     ctx.label(all_bw ? "permutation:bitwise" : "permutation:within-tol");
+  }
+  // ---- the D-dimensional object's answers do not depend on the other spline objects that were built and queried in between
+  {
+    Grads gD2 = sp.propagateGrad(gC, gT);
+    Grads eD2 = sp.getEnergyGrad();
+    VCHECK(ctx, gsame<S>(gD, gD2) && gsame<S>(eD, eD2), "other-objects-interfere", who << ": propagateGrad / getEnergyGrad of the D-dimensional spline give a different answer after other spline objects (" << D << " one-dimensional ones and a D-dimensional twin with permuted coordinates) were built and queried");
   }
   }
 }
